@@ -163,6 +163,13 @@ def sut_dict_apply(td, op):
         return sut(td.update, build_dict_arg(op))
     if k in ("ior_map", "ior_pairs"):
         return sut(td.__ior__, build_dict_arg(op))
+    if k == "update_kw":
+        # dict.update's keyword form (used by C04 only; see c04.container_step)
+        kw = {raw(a): raw(b) for a, b in op["kw"]}
+        if op.get("nopos"):
+            return sut(lambda: td.update(**kw))
+        pairs = [(raw(a), raw(b)) for a, b in op.get("pairs", ())]
+        return sut(lambda: td.update(pairs, **kw))
     raise AssertionError(k)
 
 
